@@ -211,3 +211,173 @@ M("C04", "unknown-step-continue", F, _R_ELSE_FULL, "            else:\n         
 M("C04", "unknown-step-wrong-exception", F, _R_ELSE_FULL, "            else:\n                raise KeyError(step)\n", "C04.R1")
 M("C04", "unknown-underscore-steps-skipped", F, "            elif step in (\"_header\", \"_hostheader\", \"_parameter\"):\n                pass\n",
   "            elif step.startswith(\"_\"):\n                pass\n", "C04.R1")
+
+# ------------------------------------------------------------------------------------------------ table-driven codec dispatch
+# (wave 2: the data-only codec branches moved into constant lookup tables of callables; the walker resolves a table that is
+# bound once at module / class level and binds the call's arguments into the entry - lambda or one-expression helper)
+_T_CODECS = (
+    "            elif step == \"base64\":\n"
+    "                data = base64.b64encode(data)\n"
+    "            elif step == \"base64url\":\n"
+    "                data = base64.urlsafe_b64encode(data)\n"
+    "            elif step == \"netbios\":\n"
+    "                data = netbios_encode(data).lower()\n"
+    "            elif step == \"netbiosu\":\n"
+    "                data = netbios_encode(data).upper()\n"
+)
+_T_MASK_BRANCH = "            elif step == \"mask\":\n" + _T_MASK
+_R_CODECS = (
+    "            elif step == \"base64\":\n"
+    "                data = base64.b64decode(data + b\"==\")\n"
+    "            elif step == \"base64url\":\n"
+    "                data = base64.urlsafe_b64decode(data + b\"==\")\n"
+    "            elif step == \"netbios\":\n"
+    "                data = netbios_decode(data.upper())\n"
+    "            elif step == \"netbiosu\":\n"
+    "                data = netbios_decode(data)\n"
+)
+_R_MASK_BRANCH = "            elif step == \"mask\":\n                data = xor(data[4:], data[:4])\n"
+_T_FIRST = "            if step == \"append\":\n                if isinstance(step_val, int):\n"
+_R_FIRST = "            if step == \"append\":\n                if isinstance(step_val, bytes):\n"
+_ENC_TABLE = (
+    "_ENC = {\n"
+    "    \"base64\": base64.b64encode,\n"
+    "    \"base64url\": base64.urlsafe_b64encode,\n"
+    "    \"netbios\": lambda raw: netbios_encode(raw).lower(),\n"
+    "    \"netbiosu\": lambda raw: netbios_encode(raw).upper(),\n"
+    "}\n"
+)
+_DEC_TABLE = (
+    "_DEC = {\n"
+    "    \"base64\": lambda raw: base64.b64decode(raw + b\"==\"),\n"
+    "    \"base64url\": lambda raw: base64.urlsafe_b64decode(raw + b\"==\"),\n"
+    "    \"netbios\": lambda raw: netbios_decode(raw.upper()),\n"
+    "    \"netbiosu\": netbios_decode,\n"
+    "}\n"
+)
+
+
+def _tables(enc=_ENC_TABLE, dec=_DEC_TABLE, mask_in_table=False):
+    """Membership test + subscript dispatch over two module-level dicts (function references and lambdas)."""
+    ed = [
+        (F, _CLASS, enc + dec + "\n\n" + _CLASS),
+        (F, _T_FIRST, "            if step in _ENC:\n                data = _ENC[step](data)\n            elif step == \"append\":\n                if isinstance(step_val, int):\n"),
+        (F, _T_CODECS, ""),
+        (F, _R_FIRST, "            if step in _DEC:\n                data = _DEC[step](data)\n            elif step == \"append\":\n                if isinstance(step_val, bytes):\n"),
+        (F, _R_CODECS, ""),
+    ]
+    if mask_in_table:
+        ed += [(F, _T_MASK_BRANCH, ""), (F, _R_MASK_BRANCH, "")]
+    return ed
+
+
+T("C04", "twin-codec-tables-funcrefs", F, "", "", edits=_tables())
+M("C04", "codec-table-netbios-not-uppercased", F, "", "", "C04.R2", edits=_tables(dec=_DEC_TABLE.replace("netbios_decode(raw.upper())", "netbios_decode(raw)")))
+M("C04", "codec-table-decoder-entry-missing", F, "", "", "C04.R1", edits=_tables(dec=_DEC_TABLE.replace("    \"netbiosu\": netbios_decode,\n", "")))
+M("C04", "codec-table-swallows-print", F, "", "", "C04.R3", edits=_tables(enc=_ENC_TABLE.replace("}\n", "    \"print\": lambda raw: raw,\n}\n")))
+M("C04", "codec-table-base64-pair-crossed", F, "", "", "C04.R2", edits=_tables(enc=_ENC_TABLE.replace("\"base64url\": base64.urlsafe_b64encode", "\"base64url\": base64.b64encode")))
+_ENC_MASK = _ENC_TABLE.replace("}\n", "    \"mask\": lambda raw: _masked(raw, p32be(random.getrandbits(32))),\n}\n")
+_DEC_MASK = _DEC_TABLE.replace("}\n", "    \"mask\": lambda raw: xor(raw[4:], raw[:4]),\n}\n")
+_MASKED = "def _masked(raw, key):\n    return key + xor(raw, key)\n\n\n"
+T("C04", "twin-codec-tables-mask-helper", F, "", "", edits=_tables(enc=_MASKED + _ENC_MASK, dec=_DEC_MASK, mask_in_table=True))
+M("C04", "codec-table-mask-two-draws", F, "", "", "C04.R6",
+  edits=_tables(enc=_ENC_TABLE.replace("}\n", "    \"mask\": lambda raw: p32be(random.getrandbits(32)) + xor(raw, p32be(random.getrandbits(32))),\n}\n"), dec=_DEC_MASK, mask_in_table=True))
+M("C04", "codec-table-mask-helper-key-last", F, "", "", "C04.R6",
+  edits=_tables(enc=_MASKED.replace("key + xor(raw, key)", "xor(raw, key) + key") + _ENC_MASK, dec=_DEC_MASK, mask_in_table=True))
+
+# class-level tables consulted with .get(), entries calling a static helper of the class
+_CLS_TABLES = (
+    _CLASS
+    + "    _ENCODERS = {\n"
+    "        \"base64\": lambda raw: base64.b64encode(raw),\n"
+    "        \"base64url\": lambda raw: base64.urlsafe_b64encode(raw),\n"
+    "        \"netbios\": lambda raw: netbios_encode(raw).lower(),\n"
+    "        \"netbiosu\": lambda raw: netbios_encode(raw).upper(),\n"
+    "    }\n"
+    "    _DECODERS = {\n"
+    "        \"base64\": lambda raw: base64.b64decode(raw + b\"==\"),\n"
+    "        \"base64url\": lambda raw: base64.urlsafe_b64decode(raw + b\"==\"),\n"
+    "        \"netbios\": lambda raw: netbios_decode(raw.upper()),\n"
+    "        \"netbiosu\": lambda raw: netbios_decode(raw),\n"
+    "    }\n\n"
+)
+
+
+def _cls_tables(tables=_CLS_TABLES):
+    return [
+        (F, _CLASS, tables),
+        (F, _T_FIRST, "            codec = self._ENCODERS.get(step)\n            if codec:\n                data = codec(data)\n                continue\n            if step == \"append\":\n                if isinstance(step_val, int):\n"),
+        (F, _T_CODECS, ""),
+        (F, _R_FIRST, "            codec = self._DECODERS.get(step)\n            if codec:\n                data = codec(data)\n                continue\n            if step == \"append\":\n                if isinstance(step_val, bytes):\n"),
+        (F, _R_CODECS, ""),
+    ]
+
+
+T("C04", "twin-codec-tables-class-attributes", F, "", "", edits=_cls_tables())
+M("C04", "codec-class-table-padding-dropped", F, "", "", "C04.R2", edits=_cls_tables(_CLS_TABLES.replace("base64.urlsafe_b64decode(raw + b\"==\")", "base64.urlsafe_b64decode(raw)")))
+# a table the walker cannot resolve (built at import time by a comprehension): nothing is claimed about the codec steps
+T("C04", "twin-codec-tables-computed", F, "", "",
+  edits=_tables(enc=_ENC_TABLE.replace("_ENC = {", "_ENC_SRC = {") + "_ENC = {name: fn for name, fn in _ENC_SRC.items()}\n",
+                dec=_DEC_TABLE.replace("_DEC = {", "_DEC_SRC = {") + "_DEC = {name: fn for name, fn in _DEC_SRC.items()}\n"))
+
+# ------------------------------------------------------------------------------------------------ build starts a new block (R7)
+_T_BUILD_ID = "                    data = c2data.id or b\"\"\n"
+M("C04", "build-keeps-payload-when-field-empty", F, _T_BUILD_ID, "                    if c2data.id:\n                        data = c2data.id\n", "C04.R7")
+M("C04", "build-adds-field-to-payload", F, "                    data = c2data.metadata or b\"\"\n", "                    data += c2data.metadata or b\"\"\n", "C04.R7")
+T("C04", "twin-build-reset-then-fill", F, _T_BUILD_ID, "                    data = b\"\"\n                    if c2data.id:\n                        data = c2data.id\n")
+T("C04", "twin-build-namedtuple-fields-lookup", F, _T_BUILD, "                if step_val in C2Data._fields:\n                    data = getattr(c2data, step_val, None) or b\"\"\n")
+M("C04", "build-fields-lookup-skips-empty", F, _T_BUILD,
+  "                value = getattr(c2data, step_val, None) if step_val in C2Data._fields else None\n                data = value if value is not None else data\n", "C04.R7")
+
+# ------------------------------------------------------------------------------------------------ per-call state (R8)
+_BLANK = "HttpRequest(method=b\"\", uri=b\"\", body=b\"\", params={}, headers={})"
+M("C04", "blank-request-module-constant", F, "", "", "C04.R8",
+  edits=[(F, _CLASS, "_BLANK_REQUEST = " + _BLANK + "\n\n\n" + _CLASS), (F, _T_REQ, "        request = request or _BLANK_REQUEST\n")])
+M("C04", "blank-request-shared-dicts", F, "", "", "C04.R8",
+  edits=[(F, _CLASS, "_NO_PARAMS: Dict[bytes, bytes] = {}\n_NO_HEADERS: Dict[bytes, bytes] = {}\n\n\n" + _CLASS),
+         (F, _T_REQ, "        request = request or HttpRequest(method=b\"\", uri=b\"\", body=b\"\", params=_NO_PARAMS, headers=_NO_HEADERS)\n")])
+M("C04", "blank-request-mutable-default-argument", F, "request: Optional[HttpRequest] = None) -> HttpRequest:", "request: HttpRequest = " + _BLANK + ") -> HttpRequest:", "C04.R8")
+M("C04", "blank-request-instance-attribute", F, "", "", "C04.R8",
+  edits=[(F, "        self.tsteps: List[TransformStep] = list(steps)\n", "        self.blank = " + _BLANK + "\n        self.tsteps: List[TransformStep] = list(steps)\n"),
+         (F, _T_REQ, "        if request is None:\n            request = self.blank\n")])
+T("C04", "twin-blank-request-constant-copied", F, "", "",
+  edits=[(F, _CLASS, _CLASS + "    EMPTY_REQUEST = " + _BLANK + "\n\n"), (F, _T_REQ, "        request = request or self.EMPTY_REQUEST\n"),
+         (F, "        params = request.params\n        headers = request.headers\n", "        params = dict(request.params)\n        headers = dict(request.headers)\n")])
+T("C04", "twin-blank-request-factory", F, "", "",
+  edits=[(F, _CLASS, _CLASS + "    @staticmethod\n    def _blank_request() -> HttpRequest:\n        return " + _BLANK + "\n\n"), (F, _T_REQ, "        request = request or self._blank_request()\n")])
+T("C04", "twin-blank-request-constant-unpacked-copy", F, "", "",
+  edits=[(F, _CLASS, _CLASS + "    EMPTY_REQUEST = " + _BLANK + "\n\n"), (F, _T_REQ, "        request = request or self.EMPTY_REQUEST\n"),
+         (F, "        params = request.params\n        headers = request.headers\n", "        params = dict(request.params)\n        headers = {**request.headers}\n")])
+
+# one table of (encoder, decoder) pairs shared by both directions
+_PAIRS = (
+    "_CODEC_PAIRS = {\n"
+    "    \"base64\": (base64.b64encode, lambda raw: base64.b64decode(raw + b\"==\")),\n"
+    "    \"base64url\": (base64.urlsafe_b64encode, lambda raw: base64.urlsafe_b64decode(raw + b\"==\")),\n"
+    "    \"netbios\": (lambda raw: netbios_encode(raw).lower(), lambda raw: netbios_decode(raw.upper())),\n"
+    "    \"netbiosu\": (lambda raw: netbios_encode(raw).upper(), netbios_decode),\n"
+    "}\n\n\n"
+)
+
+
+def _pairs(t_index="0", r_index="1"):
+    return [
+        (F, _CLASS, _PAIRS + _CLASS),
+        (F, _T_FIRST, "            pair = _CODEC_PAIRS.get(step)\n            if pair is not None:\n                data = pair[" + t_index + "](data)\n            elif step == \"append\":\n                if isinstance(step_val, int):\n"),
+        (F, _T_CODECS, ""),
+        (F, _R_FIRST, "            pair = _CODEC_PAIRS.get(step)\n            if pair is not None:\n                data = pair[" + r_index + "](data)\n            elif step == \"append\":\n                if isinstance(step_val, bytes):\n"),
+        (F, _R_CODECS, ""),
+    ]
+
+
+T("C04", "twin-codec-pair-table", F, "", "", edits=_pairs())
+M("C04", "codec-pair-table-recover-encodes", F, "", "", "C04.R2", edits=_pairs(r_index="0"))
+
+# class-level table whose mask entry calls a static helper of the class by its qualified name
+_CLS_MASK = (
+    _CLS_TABLES.replace("    _DECODERS = {\n", "    @staticmethod\n    def _masked(raw, key):\n        return key + xor(raw, key)\n\n    _DECODERS = {\n        \"mask\": lambda raw: xor(raw[4:], raw[:4]),\n")
+    .replace("    _ENCODERS = {\n", "    _ENCODERS = {\n        \"mask\": lambda raw: HttpDataTransform._masked(raw, p32be(random.getrandbits(32))),\n")
+)
+T("C04", "twin-codec-class-table-static-mask-helper", F, "", "", edits=_cls_tables(_CLS_MASK) + [(F, _T_MASK_BRANCH, ""), (F, _R_MASK_BRANCH, "")])
+M("C04", "codec-class-table-mask-split-at-two", F, "", "", "C04.R6",
+  edits=_cls_tables(_CLS_MASK.replace("xor(raw[4:], raw[:4])", "xor(raw[2:], raw[:2])")) + [(F, _T_MASK_BRANCH, ""), (F, _R_MASK_BRANCH, "")])
